@@ -285,9 +285,118 @@ def body_cal(case, rec):
             rec.check(ok, "champion_result_differs_from_standalone_exposure", f"island {isl} target {k}: {g.ravel()[:4]} vs standalone {want.ravel()[:4]} (shapes {g.shape}/{want.shape})")
 
 
-PARTS = {"observation": body, "calibration": body_cal}
+# ------------------------------------------------------------------------------------------------ sweeping the readout time
+RO_KEY = "observation.readout.times"
+
+
+@st.composite
+def readout_cases(draw):
+    """A sweep over 'observation.readout.times' (supported since pyxel 2.6.1: every run is read out once, at its own time)."""
+    ts = draw(st.lists(st.sampled_from([0.5, 1.0, 2.0, 3.0, 5.0, 7.5]), min_size=1, max_size=4, unique=True))
+    other = draw(st.sampled_from([None, None, KEYS[0], KEYS[5]]))
+    case = {"times": ts, "other": other, "other_values": None, "dask": draw(st.sampled_from([True, True, True, False])),
+            "user_times": draw(st.sampled_from([[3.0, 4.0], [1.0], [0.25, 0.5, 6.0]])), "non_destructive": draw(st.booleans()),
+            "bump": draw(st.sampled_from([1.0, 2.5])), "pre_state": draw(st.booleans()), "readout_first": draw(st.booleans())}
+    if other == KEYS[0]:
+        case["other_values"] = draw(st.lists(st.integers(1, 40), min_size=1, max_size=3, unique=True))
+    elif other == KEYS[5]:
+        case["other_values"] = draw(st.lists(st.sampled_from([50.0, 150.0, 250.0]), min_size=1, max_size=3, unique=True))
+    return case
+
+
+def _ro_standalone(case, t, other_value):
+    run = {} if case["other"] is None else {case["other"]: other_value}
+    c2 = dict(case, steps=1)
+    s = full_state(run)
+    pipe = _pipeline(c2)
+    pipe["groups"]["charge_collection"][0]["arguments"]["level"] = s[KEYS[0]]
+    det = simple_spec("CMOS", row=2, col=3)
+    det["environment"]["temperature"] = s[KEYS[5]]
+    spec = {"detector": det, "pipeline": pipe, "mode": {"kind": "exposure"}, "readout": {"times": [float(t)]}, "non_destructive": case["non_destructive"]}
+    cfg = pyx.build(spec)
+    if case["pre_state"]:
+        _pre_state(cfg)
+    res = pyx.run(cfg, with_inherited_coords=True)
+    return {b: np.asarray(res[f"/bucket/{b}"].values)[0] for b in ("pixel", "signal", "image")}
+
+
+def body_readout(case, rec):
+    from vprobes import models as P
+
+    P.reset()
+    rec.cls("ro:dask" if case["dask"] else "ro:seq", f"ro:runs:{len(case['times'])}", "ro:with_other_parameter" if case["other"] else "ro:alone",
+            f"ro:user_readouts:{len(case['user_times'])}")
+    rec.nt(len(case["times"]) >= 2)
+    params = [{"key": RO_KEY, "values": list(case["times"]), "enabled": True}]
+    if case["other"]:
+        o = {"key": case["other"], "values": list(case["other_values"]), "enabled": True}
+        params = params + [o] if case["readout_first"] else [o] + params
+    spec = {"detector": simple_spec("CMOS", row=2, col=3), "pipeline": _pipeline(dict(case, steps=1)), "readout": {"times": list(case["user_times"])},
+            "non_destructive": case["non_destructive"],
+            "mode": {"kind": "observation", "mode": "product", "with_dask": case["dask"], "parameters": params}}
+    cfg = None
+    with rec.must_not_raise("valid_space_refused"):
+        cfg = pyx.build(spec)
+    if cfg is None:
+        return
+    if case["pre_state"]:
+        _pre_state(cfg)
+    before = snapshot.snap_all(cfg)
+    res, raised = None, None
+    try:
+        res = pyx.run(cfg, with_inherited_coords=True, compute=True)
+    except Exception as exc:  # noqa: BLE001
+        raised = exc
+    d = snapshot.diff(before, snapshot.snap_all(cfg))
+    rec.check(not d, "callers_objects_modified", f"after a sweep of the readout time: {d[:4]}")
+    if raised is not None:
+        # the statement allows nothing but isolation and equality; a refusal of this key is not one of the listed outcomes, but it is no silent
+        # wrong result either: report it under its own signature
+        rec.fail(f"readout_sweep_refused:{type(raised).__name__}", f"{raised!r}"[:300])
+        return
+    short = {KEYS[0]: "level", KEYS[5]: "temperature"}
+    for t in case["times"]:
+        for ov in (case["other_values"] or [None]):
+            want = None
+            with rec.must_not_raise("standalone_exposure_failed"):
+                want = _ro_standalone(case, t, ov)
+            if want is None:
+                continue
+            for b in ("pixel", "signal", "image"):
+                da = res[f"/bucket/{b}"]
+                try:
+                    if "readout_time" in da.dims:  # sequential layout: (readout_time, ..., time)
+                        sel = da.sel(readout_time=t)
+                        if case["other"]:
+                            sel = sel.sel({short[case["other"]]: ov})
+                        got_t = [float(x) for x in np.atleast_1d(sel["time"].values)]
+                        rec.check(got_t == [float(t)], "run_differs_from_standalone_exposure:readout_times",
+                                  f"the run labelled readout_time={t} was read out at {got_t}")
+                        got = np.asarray(sel.values)[0] if sel.ndim == 3 else np.asarray(sel.values)
+                    else:
+                        sel = da.sel(time=t)
+                        if case["other"]:
+                            sel = sel.sel({short[case["other"]]: ov})
+                        got = np.asarray(sel.values)
+                except (KeyError, LookupError, ValueError) as exc:
+                    rec.fail("label_not_selectable", f"run time={t} {case['other']}={ov}: {exc!r}"[:300])
+                    continue
+                a, w = np.asarray(got, dtype=float), want[b].astype(float)
+                ok = a.shape == w.shape and bool(np.allclose(a, w, rtol=1e-12, atol=1e-9, equal_nan=True))
+                rec.check(ok, f"run_differs_from_standalone_exposure:{b}",
+                          lambda a=a, w=w, b=b, t=t, ov=ov: f"run readout time {t}, {case['other']}={ov}: {b} {a.ravel()[:4]} vs standalone {w.ravel()[:4]} (shapes {a.shape}/{w.shape})")
+
+
+def known_key(part, clause, case, detail):
+    if part == "readout_sweep" and not case.get("dask") and clause.startswith("run_differs_from_standalone_exposure"):
+        return "K6-readout-time-sweep-ignored-without-dask"
+    return None
+
+
+PARTS = {"observation": body, "calibration": body_cal, "readout_sweep": body_readout}
 
 
 def plan(tier):
     return [Part(name="observation", kind="gen", strategy=cases, examples=60 if tier == "quick" else 400),
-            Part(name="calibration", kind="gen", strategy=cal_cases, examples=6 if tier == "quick" else 60)]
+            Part(name="calibration", kind="gen", strategy=cal_cases, examples=6 if tier == "quick" else 60),
+            Part(name="readout_sweep", kind="gen", strategy=readout_cases, examples=12 if tier == "quick" else 100)]
